@@ -277,6 +277,8 @@ func ruleC04(w *World, r *Report) {
 	ruleC04AppIDPerPDR(w, r, "C04", "R04.12")
 	// R04.13: a reconnect does not clear a switch that holds live sessions (C15 R15.5 re-filed)
 	r.withRule("R04.13", func() { ruleC15Ownership(w, r) })
+	ruleResetBothCells(w, r, "C04", "R04.14")
+	ruleOneBatch(w, r, "C04", "R04.15")
 }
 
 // ruleC04AppSide: the application address/port come from the destination side for access
